@@ -9,5 +9,6 @@ SumBlocks(content) == IF content = <<>> THEN 0 ELSE ChunkBlocks[Head(content)] +
 DataBlocks(pr) == IF pr.kind = "file" /\ (pr.action = "CREATE" \/ (pr.action = "UPDATE" /\ pr.rc))
                   THEN SumBlocks(pr.content) ELSE 0
 MCShape(e, k, protos) == [i \in 1..Len(protos) |-> [protos[i] EXCEPT !.hb = 3, !.db = DataBlocks(protos[i])]]
+MCBatch == {<<"a">>, <<"a", "b">>}
 MCChunkBlocks == [c \in Chunks |-> IF c = "c1" THEN 1 ELSE RS + 1]
 =============================================================================
